@@ -640,7 +640,12 @@ def _body(case, skip, send, progress):
             em = [CONST] * gl
             if "unhooked" not in skip:
                 progress("ToroidalVoxelGrid.emissivities_from_function:process-death", desc, "%d times 2.5" % gl, "unhooked")
-                em = [float(x) for x in grid.emissivities_from_function(_mods["Constant3D"](CONST), 2)]
+                em_first = grid.emissivities_from_function(_mods["Constant3D"](CONST), 2)
+                # a second phantom sampled on the same grid must not change the result of the first call
+                em_second = grid.emissivities_from_function(_mods["Constant3D"](CONST + 4.5), 1)
+                em = [float(x) for x in em_first]
+                if [float(x) for x in em_second] != [CONST + 4.5] * gl:
+                    em = [float(x) for x in em_second]
         except Exception as e:  # noqa
             V("ToroidalVoxelGrid:construct-or-read:raises:%s" % type(e).__name__, desc + ": " + str(e)[:200], "a grid", type(e).__name__)
             g = g % 4 + 1
